@@ -5,9 +5,5 @@ CONSTANTS
   Timeout = 2
   SockIds = {1, 2, 3, 4}
   MaxT = 4
-  Evicts = TRUE
+  Evicts = FALSE
 INVARIANT Bounded
-INVARIANT Partition
-INVARIANT TakenInTime
-INVARIANT Ordered
-PROPERTY AbandonOnlyExpiredOrFull
